@@ -121,7 +121,40 @@ pub fn sched_stop() {
     SCHED_ON.store(false, O::SeqCst);
 }
 
+// ---- deterministic preemption injection: run an "adversary" (acting as another thread) right before
+// the k-th count operation of the call under test
+thread_local! {
+    pub static INJECT: std::cell::RefCell<Option<Box<dyn FnMut(usize)>>> = const { std::cell::RefCell::new(None) };
+    static IN_INJECT: std::cell::Cell<bool> = const { std::cell::Cell::new(false) };
+    static EVENT_NO: std::cell::Cell<usize> = const { std::cell::Cell::new(0) };
+}
+pub fn inject_reset() {
+    EVENT_NO.with(|c| c.set(0));
+}
+fn maybe_inject() {
+    if IN_INJECT.with(|c| c.get()) {
+        return;
+    }
+    let has = INJECT.with(|i| i.borrow().is_some());
+    if !has {
+        return;
+    }
+    let k = EVENT_NO.with(|c| {
+        c.set(c.get() + 1);
+        c.get()
+    });
+    IN_INJECT.with(|c| c.set(true));
+    // take the closure out while it runs (it performs library calls that come back here)
+    let f = INJECT.with(|i| i.borrow_mut().take());
+    if let Some(mut f) = f {
+        f(k);
+        INJECT.with(|i| *i.borrow_mut() = Some(f));
+    }
+    IN_INJECT.with(|c| c.set(false));
+}
+
 fn pre(_e: &hook::Event) {
+    maybe_inject();
     if SERIALISE.load(O::Relaxed) {
         sched_point();
         let k = YIELD_EVERY.load(O::Relaxed);
